@@ -14,19 +14,29 @@ Record disk := { dmeta : meta; dindex : index }.
 
 Definition read_meta (m : meta) : option ver * option hsh := match m with MJson v h => (v, h) | _ => (None, None) end.
 
-(* one persistent effect; write_meta is File::create (truncates) followed by the JSON, modelled as two effects below *)
+(* one persistent effect; write_meta is File::create (truncates) followed by the JSON, modelled as two effects below.
+   The index writer buffers: delete_all_documents and the added documents become visible at the commit; what a commit leaves
+   depends on whether the old documents were deleted first. A kill loses whatever is pending. *)
 Inductive atom := AEff (e : effect) | ATrunc | AFinish.
-Definition apply (a : atom) (d : disk) : disk :=
+Record pend := { cleared : bool; added : bool }.
+Definition nothing_pending : pend := {| cleared := false; added := false |}.
+Definition commit_content (c : content) (p : pend) : content :=
+  if cleared p then (if added p then Shipped else Empty)
+  else if added p then match c with Empty => Shipped | Shipped => Shipped (* every fact twice: same answers *) | Other => Other end
+  else c.
+Definition apply (a : atom) (dp : disk * pend) : disk * pend :=
+  let (d, p) := dp in
   match a with
-  | AEff RemoveMeta => {| dmeta := MAbsent; dindex := dindex d |}
-  | AEff RemoveDir => {| dmeta := dmeta d; dindex := match dindex d with IMissing => IMissing | _ => IMissing end |}
-  | AEff CreateDir => {| dmeta := dmeta d; dindex := match dindex d with IMissing => IBroken | i => i end |}
-  | AEff CreateIndex => {| dmeta := dmeta d; dindex := IOpen Empty |}
-  | AEff DeleteAll | AEff AddDocs => d                                       (* not visible before the commit *)
-  | AEff Commit => {| dmeta := dmeta d; dindex := match dindex d with IOpen _ => IOpen Shipped | i => i end |}
-  | AEff WriteMeta => d
-  | ATrunc => {| dmeta := MGarbage; dindex := dindex d |}
-  | AFinish => {| dmeta := MJson (Some VThis) (Some HCur); dindex := dindex d |}
+  | AEff RemoveMeta => ({| dmeta := MAbsent; dindex := dindex d |}, p)
+  | AEff RemoveDir => ({| dmeta := dmeta d; dindex := IMissing |}, p)
+  | AEff CreateDir => ({| dmeta := dmeta d; dindex := match dindex d with IMissing => IBroken | i => i end |}, p)
+  | AEff CreateIndex => ({| dmeta := dmeta d; dindex := IOpen Empty |}, nothing_pending)
+  | AEff DeleteAll => (d, {| cleared := true; added := false |})
+  | AEff AddDocs => (d, {| cleared := cleared p; added := true |})
+  | AEff Commit => ({| dmeta := dmeta d; dindex := match dindex d with IOpen c => IOpen (commit_content c p) | i => i end |}, nothing_pending)
+  | AEff WriteMeta => (d, p)
+  | ATrunc => ({| dmeta := MGarbage; dindex := dindex d |}, p)
+  | AFinish => ({| dmeta := MJson (Some VThis) (Some HCur); dindex := dindex d |}, p)
   end.
 
 (* the steps of one start, as decided from what it reads *)
@@ -48,12 +58,13 @@ Definition plan (d : disk) : list (atom + nat) :=
   idx ++ flat_map expand after_open_steps ++ (if rebuild then flat_map expand rebuild_steps else []).
 
 (* run until crash point [cp] is reached (a crash point that is never reached means the start completes) *)
-Fixpoint run (cp : nat) (l : list (atom + nat)) (d : disk) : disk :=
+Fixpoint run_p (cp : nat) (l : list (atom + nat)) (dp : disk * pend) : disk * pend :=
   match l with
-  | [] => d
-  | inl a :: r => run cp r (apply a d)
-  | inr n :: r => if Nat.eqb n cp then d else run cp r d
+  | [] => dp
+  | inl a :: r => run_p cp r (apply a dp)
+  | inr n :: r => if Nat.eqb n cp then dp else run_p cp r dp
   end.
+Definition run (cp : nat) (l : list (atom + nat)) (d : disk) : disk := fst (run_p cp l (d, nothing_pending)).
 Definition crash_run (cp : nat) (d : disk) : disk := run cp (plan d) d.
 Definition complete (d : disk) : disk := run 0 (plan d) d.                    (* crash point 0 does not exist *)
 (* what the tool answers from after a completed start *)
